@@ -58,6 +58,18 @@ def load_obligations():
     return list(V.REGISTRY)
 
 
+def claimed_level(prop):
+    """the level claimed for the property in MANIFEST.json (single source of truth)"""
+    try:
+        with open(os.path.join(ROOT, "MANIFEST.json")) as f:
+            for c in json.load(f).get("checks", []):
+                if c["property_id"] == prop:
+                    return c["level_claimed"]["category"]
+    except Exception:
+        pass
+    return None
+
+
 def known_findings():
     p = os.path.join(ROOT, "known_findings.json")
     if not os.path.exists(p):
@@ -156,6 +168,29 @@ def native_replay_for(obl_rec, clause):
         return f"# replay generator failed: {e}\nimport sys; sys.exit(0)\n"
 
 
+def setup():
+    """offline sanity of the two interpreters and the solvers; builds nothing outside /verif"""
+    os.makedirs(WORK, exist_ok=True)
+    os.makedirs(os.path.join(ROOT, "evidence"), exist_ok=True)
+    import z3
+    s = z3.Solver()
+    x = z3.Int("x")
+    s.add(x > 1, x < 3)
+    assert str(s.check()) == "sat"
+    print("z3", z3.get_version_string())
+    p = subprocess.run(["/usr/bin/cvc5", "--version"], capture_output=True, text=True)
+    print((p.stdout.splitlines() or ["cvc5 missing"])[0])
+    env = dict(os.environ, PYTHONPATH=ROOT + (":" + REPO if REPO != "/repo" else ""))
+    p = subprocess.run([VENV_PY, "-c", "import torch, numpy, cirkit, native.refinterp, native.gen; print('torch', torch.__version__, 'cirkit', cirkit.__file__)"],
+                       cwd=ROOT, env=env, capture_output=True, text=True)
+    print(p.stdout.strip() or p.stderr[-500:])
+    if p.returncode != 0:
+        return 3
+    n = len(load_obligations())
+    print("contract harnesses:", n)
+    return 0 if n > 0 else 3
+
+
 def check(prop, tier, seed, jobs):
     os.makedirs(WORK, exist_ok=True)
     os.makedirs(os.path.join(ROOT, "evidence"), exist_ok=True)
@@ -243,9 +278,11 @@ def check(prop, tier, seed, jobs):
         samples.append({"obligation": r["id"], "doc": r.get("doc", "")[:200], "paths": r["paths"], "clauses": [
             {"label": c["label"], "status": c["status"], "backend": c.get("backend", "z3"), "time_s": c["time_s"]} for c in r["clauses"][:6]]})
     have_proof = n_clauses > 0
+    level = claimed_level(prop) or ("proof" if have_proof else "exploration")
     coverage = {}
+    proofcov = {}
     if have_proof:
-        coverage.update({
+        proofcov = {
             "obligations": n_clauses, "discharged": n_disch,
             "checker_cmd": f"./vf check {prop} --tier {tier}  (python3-vt -m engine.run over contracts/*.py, obligations with property == {prop})",
             "trusted_base": TRUSTED_BASE,
@@ -257,22 +294,30 @@ def check(prop, tier, seed, jobs):
             "solver_time_s": round(sum(r.get("solver_time_s", 0) for r in recs), 3),
             "proof_wall_s": proof["wall_s"],
             "unchecked_assumptions": notes,
-            "undecided": undecided, "samples": samples,
+            "undecided": undecided,
+            "obligation_samples" if level != "proof" else "samples": samples,
+            "obligation_ids": [r["id"] for r in recs][:400],
             "rank_bound": "tensor kernels: rank enumerated up to 3 (quick) / 4 (thorough); sizes unbounded; shape code: any rank",
-        })
+        }
+        if level == "proof":
+            coverage.update(proofcov)
+        else:
+            coverage["proved_clauses"] = dict(proofcov, note="contract obligations discharged for the functions listed; they cover "
+                                              "only part of the property (see DESIGN.md), the rest is the bounded stand-in below")
     if bounded is not None:
         bs = {"labelled": "bounded stand-in - never counted in obligations/discharged", "bound": bounded.get("bound", ""),
               "rule": bounded.get("rule", ""), "evaluations": bounded.get("evaluations", 0),
               "distinct_nontrivial": bounded.get("distinct_nontrivial", 0), "sections": bounded.get("sections", {}),
               "failures": len(bounded.get("failures", [])), "wall_s": bounded.get("wall_s", 0), "samples": bounded.get("samples", [])[:4]}
         coverage["bounded_standins"] = bs
-        if not have_proof:
+        if level != "proof":
             coverage.update({"evaluations": bs["evaluations"], "distinct_nontrivial": bs["distinct_nontrivial"],
-                             "rule": bs["rule"] + " | bound: " + bs["bound"], "samples": bs["samples"] or ["(none)"]})
+                             "rule": bs["rule"] + " | bound: " + bs["bound"], "samples": bs["samples"] or ["(none)"],
+                             "exhaustive": False})
     coverage["known_findings"] = known_lines
     coverage["explanation"] = (f"{n_disch}/{n_clauses} proof clauses discharged over {len(recs)} contract harnesses; "
                                + ("bounded stand-in: %d evaluations, %d failures" % (bounded.get("evaluations", 0), len(bounded.get("failures", []))) if bounded is not None else "no bounded stand-in"))
-    ev = {"property_id": prop, "tier": tier, "seed": seed, "level": "proof" if have_proof else "exploration",
+    ev = {"property_id": prop, "tier": tier, "seed": seed, "level": level,
           "coverage": coverage,
           "assumptions": TRUSTED_BASE + notes + ["repo tree: " + REPO],
           "wall_s": round(time.time() - t0, 2), "violations": len(violations)}
@@ -309,12 +354,15 @@ def main():
     c.add_argument("--seed", type=int, default=int(os.environ.get("VERIF_SEED", "0")))
     c.add_argument("--jobs", type=int, default=int(os.environ.get("VERIF_JOBS", "16")))
     sub.add_parser("list")
+    sub.add_parser("setup")
     sub.add_parser("baseline")
     r = sub.add_parser("replay")
     r.add_argument("file")
     a = ap.parse_args()
     if a.cmd == "check":
         sys.exit(check(a.prop, a.tier, a.seed, a.jobs))
+    if a.cmd == "setup":
+        sys.exit(setup())
     if a.cmd == "list":
         by = {}
         for o in load_obligations():
